@@ -11,7 +11,7 @@ git apply --check "$D/patch.diff" || { echo "$ID: patch does not apply to curren
 # demo passes without the change
 cp "$D/demo_test.go" /repo/zz_demo_test.go
 TAGS=""; grep -q "go:build verif" "$D/demo_test.go" && TAGS="-tags verif"
-RACE=""; [ "$ID" = "C18" ] && RACE="-race"
+RACE=""; case "$ID" in C18*) RACE="-race";; esac
 go test $RACE $TAGS -count=1 -timeout 120s -run 'Demo|demo|Seeded|C[0-9][0-9]' . > /tmp/es.$$.clean 2>&1; clean=$?
 git apply "$D/patch.diff"
 go build ./... > /dev/null 2>&1; b1=$?; go build -tags verif ./... >/dev/null 2>&1; b2=$?
